@@ -17,23 +17,34 @@ from mc.common import FAMILIES, grid_rects, xinter, xarea, xinside, center_shape
 ID = 'C01'
 LEVEL = 'exploration'
 RULE = ("die of WxH grid cells; region alphabet = all index rectangles inside the die + rectangles crossing or lying beyond the east/north border; "
-        "all sets of <=3 regions x kind vectors over {blockage '#', specialised 'dsp'/'bram', fixed (through a netlist)}; families INT, HALF, DEC1, DEC3, DEC7 "
+        "all sets of <=3 regions x kind vectors over {blockage '#', specialised 'dsp'/'bram', fixed (through a netlist)}; families INT, HALF, DEC1, DEC3, DEC7 and a near-miss family with 1e-6 steps (tiny overlaps / gaps / overhangs) "
         "(decimal steps not representable in binary). Non-trivial = valid descriptions with >=1 region (the tiling oracle runs) plus invalid ones that "
         "overlap or leave the die by one grid step (the rejection oracle runs); empty dies are trivial. Distinct by construction.")
 ASSUMPTIONS = ["'valid' is decided on the intended decimal coordinates (exact rationals); every invalid description is invalid by at least one grid step",
                "reported coordinates are compared with 1e-9*scale tolerance (exact equality for the pass-through of input regions)",
                "die sizes 2..4 grid steps, <=3 regions (4 on the smallest die in thorough)"]
-BOUNDS = {'quick': 'die 3x3 cells (HALF, DEC1) and 3x2 cells (INT, DEC3, DEC7); all sets of <=3 regions; 5 kind vectors for triples, all for singles/pairs',
+BOUNDS = {'quick': 'die 3x3 cells (HALF, DEC1) and 3x2 cells (INT, DEC3, DEC7); near-miss die 4x4 points with <=2 regions; all sets of <=3 regions; 5 kind vectors for triples, all for singles/pairs',
           'thorough': 'all 27 kind vectors for triples; 3x3 and 3x2 for all five families; die 4x4 (HALF, DEC1) with <=3 regions, reduced kinds; 2x2 with <=4 regions'}
+
+# near-miss family: a 1e-6 step next to 1 -> overlaps / gaps / overhangs of 1e-6 (far above the die's own
+# tolerance of 1e-11*size, far below a grid step): tiny overlaps must still be rejected, tiny gaps tiled
+_NEAR6 = [F(0), F(1), F(1000001, 1000000), F(2), F(3), F(3000001, 1000000)]
+FAMILIES = dict(FAMILIES, NEAR6=lambda i: _NEAR6[i])
 
 KINDS = ['#', 'dsp', 'fixed']
 TRIPLE_KINDS_QUICK = [('#', '#', '#'), ('dsp', '#', 'fixed'), ('fixed', 'dsp', '#'), ('fixed', 'fixed', 'dsp'),
                       ('dsp', 'bram', 'dsp')]
 
 
-def alphabet(W, H):
+def alphabet(W, H, fam=None):
     """index rectangles inside the die, then rectangles leaving it (simplest first)"""
     inside = [r for r in grid_rects(W, H)]
+    if fam == 'NEAR6':
+        # no rectangle that is itself only 1e-6 thin: the near misses are between rectangles of ordinary size
+        thin = lambda r: (r[0], r[2]) in ((1, 2), (4, 5)) or (r[1], r[3]) in ((1, 2), (4, 5))  # noqa
+        return [r for r in inside if not thin(r)], [r for r in grid_rects(W + 1, H + 1)
+                                                    if (r[2] > W or r[3] > H) and not thin(r) and
+                                                    (r[2] - r[0]) * (r[3] - r[1]) <= 2]
     out = []
     for r in grid_rects(W + 1, H + 1):
         if r[2] > W or r[3] > H:
@@ -55,7 +66,7 @@ def shards(tier):
     out = []
 
     def add(fam, W, H, kmax, tier_k):
-        inside, outside = alphabet(W, H)
+        inside, outside = alphabet(W, H, fam)
         n = len(inside) + len(outside)
         for first in range(n):
             out.append(dict(fam=fam, W=W, H=H, kmax=kmax, first=first, kinds=tier_k))
@@ -66,7 +77,9 @@ def shards(tier):
             add(fam, 3, 3, 3, 'quick')
         for fam in ('INT', 'DEC3', 'DEC7'):
             add(fam, 3, 2, 3, 'quick')
+        add('NEAR6', 4, 4, 2, 'quick')
     else:
+        add('NEAR6', 4, 4, 3, 'quick')
         for fam in ('INT', 'HALF', 'DEC1', 'DEC3', 'DEC7'):
             add(fam, 3, 3, 3, 'thorough')
             add(fam, 3, 2, 3, 'thorough')
@@ -138,6 +151,14 @@ def check_case(case, res):
     except Exception as e:  # noqa
         d, err = None, e
     if not valid:
+        # invalid by less than the comparison tolerance (an overlap / overhang of area < 1e-9*scale^2, e.g. a
+        # 1e-6 x 1e-6 corner): below any area tolerance, both answers accepted (DESIGN 3.2)
+        worst = max([xarea(xinter(a, b)) for a, b in itertools.combinations(exs, 2) if xinter(a, b)] +
+                    [xarea(e) - (xarea(xinter(e, die_ex)) if xinter(e, die_ex) else 0) for e in exs] + [F(0)])
+        if float(worst) <= 1e-9 * scale * scale:
+            res.counters['ambiguous:invalid-below-tolerance'] += 1
+            res.case('invalid-ambiguous', nontrivial=False)
+            return
         if d is not None:
             res.violation('accepts-invalid', case, attrs, 'rejection', 'Die(...) returned')
         res.case('invalid-rejected' if d is None else 'invalid-accepted')
@@ -195,6 +216,25 @@ def check_case(case, res):
     gotf = sorted((r.center.x, r.center.y, r.shape.w, r.shape.h) for r in d.fixed_regions)
     if wantf != gotf:
         res.violation('fixed-reported', case, attrs, wantf, gotf)
+    # ---- reading the die does not change it: query everything, then compare the region lists again
+    def snapshot():
+        return [(cls, r.center.x, r.center.y, r.shape.w, r.shape.h, r.region, r.fixed)
+                for cls, lst in (('g', d.ground_regions), ('s', d.specialized_regions), ('b', d.blockages),
+                                 ('f', d.fixed_regions)) for r in lst]
+    snap0 = snapshot()
+    try:
+        fr1 = d.floorplanning_rectangles()
+        fr2 = d.floorplanning_rectangles()
+        _ = (d.write_yaml(), d.bounding_box, d.width, d.height, d.netlist)
+        n_ref = len(d.specialized_regions) + len(d.ground_regions)
+        if len(fr1[0]) != n_ref or len(fr2[0]) != n_ref or len(fr1[1]) != len(d.fixed_regions):
+            res.violation('read-mutates', case, attrs, f'{n_ref} refinable rectangles on every call',
+                          [len(fr1[0]), len(fr2[0])])
+    except Exception as e:  # noqa
+        res.violation('read-raises', case, attrs, 'accessors succeed', f'{type(e).__name__}: {e}')
+    if snapshot() != snap0:
+        res.violation('read-mutates', case, attrs, 'regions unchanged by floorplanning_rectangles()/write_yaml()',
+                      'region lists differ after reading')
     res.case('valid-accepted')
 
 
@@ -205,7 +245,7 @@ def run_shard(shard, tier, res):
         check_case(dict(fam=fam, W=W, H=H, items=[]), res)
         res.nontrivial -= 1
         return
-    inside, outside = alphabet(W, H)
+    inside, outside = alphabet(W, H, fam)
     alpha = inside + outside
     first = shard['first']
     a = alpha[first]
